@@ -191,6 +191,9 @@ def obligations(tier):
         for at in range(0, ncb):
             for tls in (False, True):
                 rais.append(dict(kinds=kinds, groups=groups, raise_at=at, tls=tls))
+        # the same with NO on_error callback set: a raising callback still does not stop the delivery of later events
+        for at in range(0, ncb - 1):
+            rais.append(dict(kinds=kinds, groups=groups, raise_at=at, tls=False, mask=127 - 32))
     return [
         Obligation("E-hist", e_hist, hist,
                    bounds="all server histories of <=%d events over {text, binary, 2-fragment message, ping, pong}, every grouping of consecutive "
@@ -201,6 +204,6 @@ def obligations(tier):
                            "WebSocket.recv_data_frame", "WebSocket.connect", "handshake"]),
         Obligation("E-subset", e_hist, subset, bounds="every subset of {on_open,on_message,on_data,on_ping,on_pong,on_error,on_close} set, 3 histories",
                    must_cover=["hist"], budget_s=1200, step_budget=40000, kernel=["WebSocketApp._callback", "read"]),
-        Obligation("E-raise", e_hist, rais, bounds="each callback invocation of 3 histories raising in turn (plain and TLS)", must_cover=["raised"],
+        Obligation("E-raise", e_hist, rais, bounds="each callback invocation of 3 histories raising in turn (plain and TLS), with and without an on_error callback", must_cover=["raised"],
                    budget_s=1200, step_budget=40000, kernel=["WebSocketApp._callback"]),
     ]
